@@ -93,6 +93,11 @@ def ref_port_segment(port, link):
     return out + (b"\x00" if len(out) % 2 else b"")
 
 
+# the port names of the documented path grammar (pycomm3 docs "connection path": backplane/bp, enet, dhrio-a/b, dnet,
+# cnet, dh485-a/b) with the CIP port numbers they stand for — kept here, independent of the library's own table
+DOCUMENTED_PORTS = {"backplane": 1, "bp": 1, "enet": 2, "dhrio-a": 2, "dhrio-b": 3, "dnet": 2, "cnet": 2, "dh485-a": 2, "dh485-b": 3}
+
+
 def ref_route(hops):
     """hops: [(port number, link)] -> word count + segments"""
     body = b"".join(ref_port_segment(p, l) for p, l in hops)
